@@ -162,7 +162,7 @@ def main(argv=None):
     matched = {}
     fresh = []
     for v in total.viol:
-        k = next((k for k in known if k["sub"] == v["sub"] and k["cls"] == v["cls"]), None)
+        k = next((k for k in known if v["sub"] in (k["sub"] if isinstance(k["sub"], list) else [k["sub"]]) and k["cls"] == v["cls"]), None)
         if k is not None:
             matched.setdefault(k["id"], (k, 0))
             matched[k["id"]] = (k, matched[k["id"]][1] + 1)
@@ -170,7 +170,7 @@ def main(argv=None):
             fresh.append(v)
     fresh.sort(key=_viol_key)
     for kid, (k, n) in sorted(matched.items()):
-        print(f"KNOWN-FINDING: property={pid} {k['what']} [id={kid} sub={k['sub']} cls={k['cls']}]")
+        print(f"KNOWN-FINDING: property={pid} {k['what']} [id={kid} cls={k['cls']} seen={n}]")
 
     rc = 0
     replay_path = None
